@@ -374,6 +374,15 @@ class StmtMixin:
         self._loop_has_effects = body_has_effects(node.body)
         names, fields = assigned_names(node.body)
         names |= assigned_names([ast.Assign(targets=[node.target], value=ast.Constant(0), lineno=0)])[0]
+        # snapshot of the locals when this loop is entered (clauses: pre_loop('name')), innermost loop last
+        self.loop_entry_stack.append(dict(st.env))
+        try:
+            return self._for_symbolic(node, spec, ordinal, seqv, n, elem, idx_target, target, names, fields)
+        finally:
+            self.loop_entry_stack.pop()
+
+    def _for_symbolic(self, node, spec, ordinal, seqv, n, elem, idx_target, target, names, fields):
+        st = self.st
         self.check_invariant(spec, ordinal, z3.IntVal(0), seqv, "entry", node.lineno)
         pre_env = dict(st.env)
         # havoc
